@@ -621,6 +621,36 @@ func genReactor(r *rand.Rand, emit func(core.Case), n int) {
 	}
 }
 
+// genHand: the node's real startStateSync after a real restore, with failing store writes: every
+// failure pattern of the hand-over (seen commit / k-th write of Bootstrap / switch to block sync).
+// Each case waits for the syncer's minimum discovery time (5 s), so there are few.
+func genHand(r *rand.Rand, emit func(core.Case), tier string) {
+	type pat struct {
+		seen, sw string
+		boot     int
+	}
+	pats := []pat{{"fail", "ok", 0}, {"ok", "ok", 0}, {"ok", "ok", 5}, {"ok", "ok", 1 + r.Intn(4)}, {"ok", "fail", 0}, {"fail", "ok", 1 + r.Intn(5)}}
+	if tier == "thorough" {
+		pats = nil
+		for _, seen := range []string{"ok", "fail"} {
+			for boot := 0; boot <= 6; boot++ {
+				for _, sw := range []string{"ok", "fail"} {
+					pats = append(pats, pat{seen, sw, boot})
+				}
+			}
+		}
+	}
+	for _, p := range pats {
+		spec := lspec{seed: int64(r.Intn(6)), n: 6, nv: 1 + r.Intn(3), ih: []int64{1, 3}[r.Intn(2)]}
+		spec.vchg = []int64{spec.ih + 1}
+		ch := getLChain(spec)
+		h := spec.ih + int64(r.Intn(3))
+		ops := []string{fmt.Sprintf("l.chain seed=%d n=%d nv=%d ih=%d vchg=%d pchg=0 uchg=0 vver=0 blocks=%s", spec.seed, spec.n, spec.nv, spec.ih, spec.vchg[0], ch.blocksStr()),
+			fmt.Sprintf("l.hand h=%d trust=%d seen=%s boot=%d switch=%s", h, spec.ih, p.seen, p.boot, p.sw)}
+		emit(core.Case{Kind: "hand-over", Ops: ops})
+	}
+}
+
 func main() {
 	core.Main(core.Prop{
 		ID:     "C14",
@@ -634,6 +664,7 @@ func main() {
 			genPool(r, emit, n)
 			genSync(r, emit, 2*n, tier)
 			genVerify(r, emit, n/2)
+			genHand(r, emit, tier)
 			genRace(r, emit, n/10)
 			genReactor(r, emit, n/2)
 			nl := n / 2
@@ -667,7 +698,7 @@ func main() {
 		},
 		Parallel: 8,
 		Extra: func() map[string]interface{} {
-			return map[string]interface{}{"scenario_histogram": scenHist, "syncany_result_histogram": runHist, "verdict_histogram": verdictHist, "racing_deliveries": raceHist, "lcp_histogram": lcpHist}
+			return map[string]interface{}{"scenario_histogram": scenHist, "syncany_result_histogram": runHist, "verdict_histogram": verdictHist, "racing_deliveries": raceHist, "lcp_histogram": lcpHist, "handover_histogram": handHist}
 		},
 	})
 }
